@@ -226,13 +226,16 @@ let parse_top (s : string) : top * string =
     | "masg", _ -> TMoveAssign (nat 1, nat 2)
     | "set", _ -> TSetBytes (nat 1, bytes_of_hex (List.nth f 2))
     | "append", ["cat"; v] -> TAppend (nat 1, nat 2, bytes_of_hex v)
+    | "utf8ref", ["set"; v] -> arg := ",ref=ok"; TSetBytes (nat 1, bytes_of_hex v)
+    | "fvlv", ["copymove"; v] -> arg := ",arg=" ^ v; TCopyMove (nat 1, nat 2)
+    | "svlv", ["set"; v] -> arg := ",arg=" ^ v; TSetBytes (nat 1, bytes_of_hex v)
     | ("selfset" | "selfview" | "selfasg"), ["set"; v] -> TSetBytes (nat 1, bytes_of_hex v)
     | "selfappend", ["cat"; v] -> TAppend (nat 1, nat 1, bytes_of_hex v)
     | "clear", _ -> TClear (nat 1)
     | "del", _ -> TDel (nat 1)
     | _, "throw" :: e :: temps ->
         let ts = List.filter (fun x -> x <> "") (match temps with [t] -> split_on '/' t | _ -> []) in
-        (match List.hd f with "setfail" | "setmfail" | "ctorbuffail" | "fmtmovestd" | "tobuffail" | "tobufvfail" | "tostdfail" -> arg := ",arg=" ^ List.nth f 2 | _ -> ());
+        (match List.hd f with "setfail" | "setmfail" | "ctorbuffail" | "fmtmovestd" | "fmtmoveuser" | "tobuffail" | "tobufvfail" | "tostdfail" -> arg := ",arg=" ^ List.nth f 2 | _ -> ());
         TThrowing (List.map bytes_of_hex ts, exn_of_name e)
     | _ -> failwith ("drv_mem: bad string op " ^ s) in
   (t, !arg)
